@@ -361,7 +361,8 @@ func (w *subWorld) emit(quiet bool, class string, op string) *subObs {
 	} else if class == "panic" {
 		w.out.Impl("r panic")
 	} else {
-		w.out.Impl("r err %s", class)
+		w.out.Impl("r err") // the kind of error (derived from the wording of the Go error) is counted, not compared
+		w.out.Count("errclass." + class)
 	}
 	if quiet {
 		return nil
